@@ -434,6 +434,22 @@ func c12WordOps(rep *report.Report) {
 		// comparison operators allow no blanks at all
 		variants = append(variants, variant{b, strings.NewReplacer(" = ", "=", " != ", "!=", " > ", ">").Replace(b)})
 	}
+	// other spellings of the same literal, and parentheses nested deeper than any skeleton above
+	for _, alt := range []string{"datetime(2020-09-09T10:39:09+01:30)", "datetime(2020-09-09T09:09:09.000000000Z)", "datetime( 2020-09-09T09:09:09Z )", "datetime(2020-09-09T09:09:09-00:00)", "datetime(2020-09-08T23:09:09-10:00)"} {
+		variants = append(variants, variant{`t < datetime(2020-09-09T09:09:09Z)`, `t < ` + alt}, variant{`t >= datetime(2020-09-09T09:09:09Z) or i = 5`, `t >= ` + alt + ` or i = 5`})
+	}
+	for _, alt := range []string{"4.0", "4e0", "0.4E1", "40e-1", "4.000"} {
+		variants = append(variants, variant{`i > 4`, `i > ` + alt}, variant{`i <= 4`, `i <= ` + alt})
+	}
+	for _, alt := range []string{"45e-1", "4.50", "0.45e1", "4.5E0"} {
+		variants = append(variants, variant{`f >= 4.5`, `f >= ` + alt}, variant{`f = 4.5`, `f = ` + alt})
+	}
+	variants = append(variants,
+		variant{`i > 3 and not (b) or s = "a"`, `((((((((i > 3 and not (b) or s = "a"))))))))`},
+		// (the operand of a prefix `not` is kept last: how far an unparenthesised `not` reaches is not fixed by the property)
+		variant{`s = "a" or i > 3 and not (b)`, `(((((((((s = "a"))))))))) or (((((((i > 3))))))) and ((((((not ((((b))))))))))`},
+		variant{`isEmpty(roles) or count(roles) = 1`, `((((((isEmpty(roles))))))) or ((((((count(roles) = 1))))))`},
+	)
 	_ = w.db.Update(nil, func(ctx boltz.MutateContext) error {
 		ds := newQDS()
 		mk := func(id string) *rm.Ent {
@@ -443,6 +459,8 @@ func c12WordOps(rep *report.Report) {
 		}
 		e1, e2, _ := mk("e1"), mk("e2"), mk("e3")
 		e1.F["s"], e1.F["i"], e1.F["b"] = rm.Str("a"), rm.Int(4), rm.Bool(true)
+		e1.F["t"], e1.F["f"] = rm.Time(qT0), rm.Flt(4.5)
+		e2.F["t"], e2.F["f"] = rm.Time(qT1), rm.Flt(5)
 		e1.Sets["roles"] = []string{"a"}
 		e2.F["s"], e2.F["i"], e2.F["b"] = rm.Str("B"), rm.Int(5), rm.Bool(false)
 		boss := "e1"
